@@ -435,7 +435,7 @@ func knownBuildSchema(id int, m proto.Message) *knownSchema {
 					k = "g"
 				}
 			}
-			fmt.Fprintf(&sb, "%s/%s/%s/%d", HexB([]byte(fd.Name())), k, Tok(fd.IsList() || fd.IsMap()), ref)
+			fmt.Fprintf(&sb, "%s/%s/%s/%d/%s", HexB([]byte(fd.Name())), k, Tok(fd.IsList() || fd.IsMap()), ref, HexB([]byte(fd.TextName())))
 		}
 	}
 	s.tok = sb.String()
@@ -445,34 +445,27 @@ func knownBuildSchema(id int, m proto.Message) *knownSchema {
 // knownTextNameOracle: the property's reading of "names a field reachable through
 // singular message fields": split at dots; every segment is the text-format name of a
 // field of the current message; every non-final field is a singular message.
-// Generative/independent of numValidPaths (no ToLower trick, uses TextName()).
-func knownTextNameOracle(md protoreflect.MessageDescriptor, path string) (ok bool, f16 bool) {
-	segs := strings.Split(path, ".")
-	for i, seg := range segs {
+// Independent of numValidPaths (no ByName/ToLower lookup, linear scan over TextName()).
+func knownTextNameOracle(md protoreflect.MessageDescriptor, path string) bool {
+	for _, seg := range strings.Split(path, ".") {
 		if md == nil {
-			return false, f16
+			return false
 		}
 		var fd protoreflect.FieldDescriptor
 		for j := 0; j < md.Fields().Len(); j++ {
-			g := md.Fields().Get(j)
-			if g.Kind() == protoreflect.GroupKind && g.TextName() == string(g.Name()) &&
-				(seg == string(g.Name()) || seg == string(g.Message().Name())) {
-				f16 = true // the segment touches a DELIMITED field that is not group-like
-			}
-			if g.TextName() == seg {
+			if g := md.Fields().Get(j); g.TextName() == seg {
 				fd = g
 			}
 		}
 		if fd == nil {
-			return false, f16
+			return false
 		}
 		md = fd.Message()
 		if fd.IsList() || fd.IsMap() {
 			md = nil
 		}
-		_ = i
 	}
-	return true, f16
+	return true
 }
 
 func knownValidOne(c *Ctx, s *knownSchema, path string) bool {
@@ -483,14 +476,9 @@ func knownValidOne(c *Ctx, s *knownSchema, path string) bool {
 	if x.IsValid(s.msg) != got {
 		c.PropFail("C44", "IsValid and New disagree", fmt.Sprint(s.id), HexB([]byte(path)))
 	}
-	want, f16 := knownTextNameOracle(s.mds[0], path)
-	if want != got {
-		if f16 {
-			c.Known("F16", "C44", "path through a DELIMITED (GroupKind) field that is not group-like: "+path)
-			c.Stat("fm.valid.F16")
-		} else {
-			c.PropFail("C44", fmt.Sprintf("path validity: got %v want %v", got, want), fmt.Sprint(s.id), HexB([]byte(path)))
-		}
+	if want := knownTextNameOracle(s.mds[0], path); want != got {
+		// (F16, repaired in /repo: names of DELIMITED fields that are not group-like were rejected)
+		c.PropFail("C44", fmt.Sprintf("path validity: got %v want %v", got, want), fmt.Sprint(s.id), HexB([]byte(path)))
 	}
 	c.Stat("fm.valid." + Tok(got))
 	return got
